@@ -15,6 +15,7 @@ from translate import common
 
 LIST_PY = 'pyglove/core/symbolic/list.py'
 DICT_PY = 'pyglove/core/symbolic/dict.py'
+BASE_PY = 'pyglove/core/symbolic/base.py'
 PRIM = '_set_item_without_permission_check'
 GROWERS = ['append', 'insert', 'extend', '__setitem__', '__iadd__', '__imul__', '_sym_rebind']
 SHRINKERS = ['__delitem__', 'pop', 'remove', 'clear']
@@ -103,6 +104,22 @@ def run():
     via = name != '__delitem__' and reaches(lcls, name, ['__delitem__', 'clear']) and (
         'min_size' in facts_of(lcls, '__delitem__').attrs)
     shrinkers.append((name, direct or via))
+  # F185 repair: the container created for a frozen field / candidate is sealed
+  _, btree = common.parse_source(BASE_PY)
+  tf = common.find_func(btree, 'symbolic_transform_fn')
+  seals = False
+  for node in ast.walk(tf):
+    if isinstance(node, ast.If):
+      test_attrs = {n.attr for n in ast.walk(node.test) if isinstance(n, ast.Attribute)}
+      body_calls = {n.func.attr for b in node.body for n in ast.walk(b)
+                    if isinstance(n, ast.Call) and isinstance(n.func, ast.Attribute)}
+      if 'frozen' in test_attrs and 'seal' in body_calls:
+        seals = True
+  # F220 repair: a key of the wrong type is a KeyError, not an assert
+  pfn = common.find_func(lcls, PRIM)
+  has_assert = any(isinstance(n, ast.Assert) for n in ast.walk(pfn))
+  raises_key = any(isinstance(n, ast.Raise) and isinstance(n.exc, ast.Call) and
+                   getattr(n.exc.func, 'id', None) == 'KeyError' for n in ast.walk(pfn))
   dprim = facts_of(dcls, PRIM)
   dform = facts_of(dcls, '_formalized_value')
   dict_writers = []
@@ -128,6 +145,10 @@ def run():
       'def listGrowers : List (String × Bool × Bool) := %s' % L(['(%s, %s, %s)' % (S(n), B(a), B(b)) for n, a, b in growers]),
       '/-- (entry point, consults `min_size` directly or through `__delitem__` / `clear`). -/',
       'def listShrinkers : List (String × Bool) := %s' % L(['(%s, %s)' % (S(n), B(a)) for n, a in shrinkers]),
+      '/-- `symbolic_transform_fn` seals the container it creates for a frozen field / candidate. -/',
+      'def frozenChildSealed : Bool := %s' % B(seals),
+      '/-- The list write primitive rejects a non-integer key with KeyError (no `assert`). -/',
+      'def listPrimBadKeyIsKeyError : Bool := %s' % B(raises_key and not has_assert),
       '/-- `Dict._set_item_without_permission_check` looks the field up and formalizes the value. -/',
       'def dictPrimFormalizes : Bool := %s' % B('_formalized_value' in dprim.self_calls and 'get_field' in dprim.attrs),
       'def dictFormalizeApplies : Bool := %s' % B('apply' in dform.attrs),
@@ -137,7 +158,8 @@ def run():
       'end Pg.C03.Gen',
       '',
   ])
-  sidecar = {'sources': {LIST_PY: common.sha(LIST_PY), DICT_PY: common.sha(DICT_PY)},
+  sidecar = {'sources': {LIST_PY: common.sha(LIST_PY), DICT_PY: common.sha(DICT_PY), BASE_PY: common.sha(BASE_PY)},
+             'frozen_child_sealed': seals, 'list_bad_key_keyerror': raises_key and not has_assert,
              'growers': growers, 'shrinkers': shrinkers, 'dict_writers': dict_writers}
   changed = common.write_gen('C03Tables', lean, sidecar)
   return {'changed': changed, 'sidecar': sidecar}
